@@ -29,8 +29,8 @@ theorem pathOk_enc {p : PyVal} {comps : List PyVal} {p' : BVal} (hpi : p.isItera
 theorem fileLen_enc {x : PyVal} {x' : BVal} (hx : EntryFacts x) (hw : wf x = true)
     (henc : Codec.encodeValue x = .ok x') :
     ∃ n : Nat, fileLen? (norm x') = some n ∧ (n : Int) = fileLen x := by
-  obtain ⟨h0, _, _⟩ := hx.fileLen
-  obtain ⟨e, l, len, p, comps, rfl, hl, _, _, hnum, hlen0, _, hp, hpi, hcomps, hall⟩ := hx
+  obtain ⟨h0, _⟩ := hx.fileLen
+  obtain ⟨e, l, len, p, comps, rfl, hl, _, _, hnum, hlen0, hp, hpi, hcomps, hall⟩ := hx
   have hfl : Validate.fileLen (.dict e) = len := by simp [Validate.fileLen, hl, hnum]
   obtain ⟨L, hL, hlook⟩ := lookup_encoded e x' henc (wf_strKeys e hw)
   obtain ⟨lv', hlv', hlb⟩ := (hlook "length").2 l hl
